@@ -21,6 +21,7 @@ EXPLANATION = (
     "under C05, C06, C09, C11, C12, C17. NOT decided: that the composed chain recovers every bit pattern for every configuration.")
 EXPLANATION += (" Added after the audit wave: C03.1 the counter converts each of Tx, Rx on its own (four raw/sequence combinations); C03.9 the dispersive element is C07's all-pass with or without retH; C03.10 GET_EYE splits the ON/OFF populations at a value computed from the level estimates, never at an element picked out of the record (strict comparisons with a sample value can empty a population: nan threshold); C03.11 on a time axis folding k >= 2 slots per trace the populations are not drawn from one sub-slot window of the raw axis (every second slot only: data whose ON slots share a parity leave mu1 = nan).")
 EXPLANATION += (" Second audit wave: C03.12 (= C17.10) the instants handed to GET_EYE's crossing clustering carry a reduction of the time axis modulo the slot, so that transitions of one parity (PPM slots 1001 1001, 0011...) still fill both crossing groups.")
+EXPLANATION += (' Third audit wave: C03.13 (= C13.13) ook.THRESHOLD_EST returns the middle element of the set of exact minimisers of its cost, never the first (argmin, ties[0]) or last: on a noise-free link the cost is exactly 0 over most of [mu0, mu1] and the first zero sits 0.1-1.5 % of the eye above mu0. C03.14 (= C17.12) GET_EYE reads its threshold off the grid linspace(mu0, mu1, n) at the density minimum only under 0 < index < n-1 (or from a grid without its end points); an end-point minimum is a level, not a valley. C03.15 every whole slot of the record enters the eye statistics: the record is cut by its remainder modulo sps (a partial slot), never modulo two slots, and an odd count is continued by one slot so that it folds - the receiver decides every slot, and the last slot of an odd count (next to the wrap-around of the FFT based devices, the most disturbed one) was otherwise decided without having been seen.')
 TRUSTED = ["the per-block properties C05, C06, C09, C11, C12, C17", "numpy comparison/sum semantics"]
 LEVEL_TEXT = ("Partial, structural: decides the wiring of ook.DSP / ppm.DSP (sampling instant, comparator, threshold source, decoder order) and the "
               "error-counter formula - necessary conditions of C03. The end-to-end claim over all bit patterns and configurations is not decided by "
@@ -283,7 +284,7 @@ def run(ctx):
     rule_sdd(ctx, None, "C03.8")
     # ---------------------------------------------------------------- C03.7 the eye measured by the OOK receiver accepts any slot count
     from .c17 import rule_even_slots
-    rule_even_slots(ctx, "C03.7")
+    rule_even_slots(ctx, "C03.7", "C03.15")
     # the dispersive element of the link is the all-pass of C07, whichever way it is called (with or without retH)
     from .c07 import rule_dm
     rule_dm(ctx, "C03.9", "C03.9")
@@ -293,6 +294,10 @@ def run(ctx):
     rule_every_slot(ctx, "C03.11")
     from .c17 import rule_periodic_crossings
     rule_periodic_crossings(ctx, "C03.12")
+    from .c13 import rule_tied_minimisers
+    rule_tied_minimisers(ctx, "C03.13")
+    from .c17 import rule_threshold_interior
+    rule_threshold_interior(ctx, "C03.14")
     # every stage of the link reads the sampling grid in force when it is CALLED (a default or cache bound earlier describes another grid)
     check_late_binding(ctx, "C03.5", ["ook.DSP", "ppm.DSP", "ook.BER_analizer", "ppm.BER_analizer", "devices.DAC", "devices.MZM", "devices.PD", "devices.SAMPLER", "devices.LPF",
                                       "devices.GET_EYE", "devices.DM", "ppm.PPM_ENCODER", "ppm.PPM_DECODER", "ppm.HDD", "ppm.SDD", "ppm.THRESHOLD_EST", "ook.THRESHOLD_EST"])
